@@ -2,3 +2,28 @@
 (engine, case, oracle failure, observed behaviour) written for one root cause; an oracle failure
 that matches no classifier is a VIOLATION."""
 from __future__ import annotations
+
+
+import ast
+
+
+def black_changes_fragment_value(ename, case, fail, obs):
+    """KF-C12-1 / KF-C01-1: the literal inline-snapshot generates is right, but black formats the lone
+    fragment as a module docstring (strips / re-escapes it) and so changes its value.  Matches only when
+    (a) the value is a top-level str formatted by black, (b) the generated token evaluates to the original
+    value, and (c) black's own output for that token evaluates to something else."""
+    if ename != "strlit" or case.get("nest") != "top" or case.get("fmt") != "black" or case.get("kind") != "str":
+        return False
+    tok = obs.get("token")
+    if not tok or not isinstance(tok[0], int):
+        return False
+    lit = "".join(map(chr, tok))
+    want = "".join(map(chr, case["cps"]))
+    try:
+        if ast.literal_eval(lit) != want:
+            return False
+        import black
+        out = black.format_str(lit, mode=black.FileMode())
+        return ast.literal_eval(out.strip()) != want
+    except Exception:  # noqa: BLE001
+        return False
